@@ -180,6 +180,20 @@ Inv_C13(e) ==
     /\ (e.op = "NewMnemonic" /\ BigOK(e.n) /\ IsSupported(e.lang) /\ ReadFullOK /\ lastErr = "" =>
             e.out = Mnemonic(SubSeq(delivered, 1, need), e.lang))
 
+\* C12: concurrent runs.  Results are functions of the arguments, so every call that returned in a
+\* concurrent run is validated like a sequential one, and against the first result recorded for the
+\* same arguments (the harness repeats every distinct call alone after the join); the process ran
+\* under the Go race detector, whose report is the last event.
+IsConc(e) == Has(e, "conc") /\ e.conc
+Inv_C12(e) ==
+    CASE e.op = "RaceReport" -> e.n = 0
+      [] IsConc(e) /\ e.op = "NewMnemonic" ->
+            /\ NoCrash(e)
+            /\ (BigOK(e.n) /\ IsSupported(e.lang) => e.err.nil /\ Canonical(e.out, e.lang) /\ Len(Tokens(e.out)) = e.n.v)
+            /\ (~BigOK(e.n) => e.out = <<>> /\ e.err.wordlen)
+      [] IsConc(e) -> (Has(e, "panicked") => NoCrash(e)) /\ Inv_C13(e)
+      [] OTHER -> TRUE
+
 \* C17: the generator's output is the non-empty LF-separated lines of its input
 IsLF(u) == u = 10
 GenExpected(input) == SelectSeq(SplitBy(input, IsLF), LAMBDA w : w # <<>>)
@@ -193,7 +207,7 @@ Holds(p, e) ==
       [] p = "C07" -> Inv_C07(e) [] p = "C08" -> Inv_C08(e) [] p = "C09" -> Inv_C09(e)
       [] p = "C10" -> Inv_C10(e) [] p = "C11" -> Inv_C11(e) [] p = "C13" -> Inv_C13(e)
       [] p = "C14" -> Inv_C14(e) [] p = "C15" -> Inv_C15(e) [] p = "C16" -> Inv_C16(e)
-      [] p = "C17" -> Inv_C17(e) [] OTHER -> TRUE
+      [] p = "C17" -> Inv_C17(e) [] p = "C12" -> Inv_C12(e) [] OTHER -> TRUE
 KnownF(p, e) == (p = "C04" /\ KF_C04(e)) \/ (p = "C11" /\ KF_C11(e))
 
 ------------------------------------------------------------------------------
@@ -219,6 +233,7 @@ Drift(e) ==
 \* The Layer S step an event stands for
 ProcStep(e) ==
     CASE e.op = "Reset" -> Restart
+      [] IsConc(e) /\ e.op # "Check" -> UNCHANGED procVars              \* concurrent calls on the default source overlap
       [] e.op = "Cut" -> /\ source' = e.source /\ UNCHANGED <<mapv, callVars>>      \* shard boundary: the harness names the source it installed
       [] e.op = "Check" -> IF Idle THEN CallCheck(e.in, e.lang) ELSE UNCHANGED procVars
       [] e.op = "Swap" -> IF Idle THEN SwapSource(e.new) ELSE UNCHANGED procVars
@@ -230,10 +245,11 @@ ProcStep(e) ==
       [] OTHER -> UNCHANGED procVars
 
 ProtocolBreak(e) ==
+    IF IsConc(e) THEN {} ELSE
     (IF e.op \in {"Check", "Swap", "NewMnemonicCall", "ByEntropy", "ToSeed", "String"} /\ ~Idle THEN {<<l, "call while another is in flight">>} ELSE {})
     \cup (IF e.op = "NewMnemonic" /\ pc = "idle" THEN {<<l, "return without call">>} ELSE {})
 
-IsCall(e) == e.op \in {"ByEntropy", "Check", "ToSeed", "String", "NewMnemonic", "Sweep", "Gen", "ListSource", "Swap", "Read", "OSRandom",
+IsCall(e) == e.op \in {"RaceReport", "ByEntropy", "Check", "ToSeed", "String", "NewMnemonic", "Sweep", "Gen", "ListSource", "Swap", "Read", "OSRandom",
                        "Recheck", "Buf", "CheckHuge", "ToSeedHuge"}
 
 Step ==
